@@ -4,6 +4,7 @@ import (
 	"encoding/json"
 	"math/rand"
 	"strings"
+	"time"
 
 	"verifharness/idp"
 	"verifharness/orch"
@@ -22,6 +23,7 @@ type cInput struct {
 	Ars   [][]string `json:"ars"`
 	Otu   bool       `json:"otu"`
 	Proxy cProxy     `json:"proxy"`
+	Win   string     `json:"win"`
 }
 type cCfg struct {
 	Aud string `json:"aud"`
@@ -33,6 +35,7 @@ type cProxyObs struct {
 }
 type cObs struct {
 	Res   string    `json:"res"`
+	Time  bool      `json:"time"`
 	Nia   bool      `json:"nia"`
 	Otu   bool      `json:"otu"`
 	Proxy cProxyObs `json:"proxy"`
@@ -88,6 +91,12 @@ func (Cond) Run(c *orch.Case) *orch.Outcome {
 		spec.Conditions.AudRestr = append(spec.Conditions.AudRestr, vs)
 	}
 	spec.Conditions.OneTimeUse = in.Otu
+	switch in.Win { // the subject confirmation stays valid: only the Conditions window moves
+	case "before":
+		spec.Conditions.NotBefore = idp.S(world.RFC(world.Now.Add(time.Minute)))
+	case "after":
+		spec.Conditions.NotOnOrAfter = idp.S(world.RFC(world.Now.Add(-time.Minute)))
+	}
 	if in.Proxy.Present {
 		p := &idp.Proxy{}
 		switch in.Proxy.Count {
@@ -130,7 +139,7 @@ func (Cond) Run(c *orch.Case) *orch.Outcome {
 		r, err := sp.RetrieveAssertionInfo(enc)
 		o.Res, _ = classify(r == nil, err)
 		if o.Res == "accept" && r.WarningInfo != nil {
-			o.Nia, o.Otu = r.WarningInfo.NotInAudience, r.WarningInfo.OneTimeUse
+			o.Nia, o.Otu, o.Time = r.WarningInfo.NotInAudience, r.WarningInfo.OneTimeUse, r.WarningInfo.InvalidTime
 			if p := r.WarningInfo.ProxyRestriction; p != nil {
 				o.Proxy.Present, o.Proxy.Count = true, p.Count
 				for _, a := range p.Audience {
